@@ -26,3 +26,19 @@ __CPROVER_assigns(*split_calls, g_split_verdict, g_split_calls)
 __CPROVER_ensures(RET != 0 ==> (spec_contig(pub, tx, txlen) || (split_verdict != 0 && *split_calls == 1)))
 __CPROVER_ensures(spec_contig(pub, tx, txlen) ==> RET != 0)
 __CPROVER_ensures((RET == 0) ==> (*split_calls == 1 && split_verdict == 0));
+
+/* completeness for EVERY transaction length up to the vector model's capacity: a contiguous embedding at any offset is accepted.
+ * goff is a ghost offset; the harness cannot assume where the search looks - the outer search loop is closed by a loop contract
+ * (loops.json: while the loop runs, no offset below i matched the ghost embedding, so i <= goff). */
+#ifndef TXMAX
+#define TXMAX 100
+#endif
+extern size_t g_off, g_txlen;
+extern int g_match;
+#define MATCH_AT(pub, tx, o) ((tx)[(o)] == (pub)[0] && (tx)[(o) + 79] == (pub)[79])
+int w_checkBtcTx_any_c(const uint8_t* pub, const uint8_t* tx, size_t txlen, size_t goff, int split_verdict)
+__CPROVER_requires(txlen <= TXMAX && __CPROVER_r_ok(pub, 80) && __CPROVER_r_ok(tx, TXMAX))
+__CPROVER_assigns(g_split_verdict, g_split_calls, g_off, g_match, g_txlen)
+/* g_match is computed by the wrapper as the 80-byte equality at goff (checked here on its two end bytes as a sanity link) */
+__CPROVER_ensures((g_match != 0) ==> (goff + 80 <= txlen && MATCH_AT(pub, tx, goff)))
+__CPROVER_ensures((g_match != 0) ==> RET != 0);
